@@ -120,6 +120,9 @@ def main():
     # 2. the real futex.c under the deterministic scheduler; every schedule's history against FutexAbs
     wd = common.scratch("c17-")
     stats = {"schedules": 0, "deadlock_ends": 0, "histories": 0}
+    if tier != "quick":
+        # queue discipline of the abstract protocol for ANY finite set of threads (TLA+ proof system)
+        stats["proof_FutexProof"] = common.tlapm("FutexProof")
     try:
         try:
             exe = build_driver(wd)
@@ -246,7 +249,8 @@ def main():
                    "bucket addresses) run on the real futex.c under the deterministic scheduler; all schedules up to the preemption "
                    "bound incl. spurious wake-ups and time-outs; distinct = distinct API-level histories, each validated by TLC "
                    "against FutexAbs (linearization search); ASan observes heap use; plus emission of static offsets",
-           "impl_model_states": impl["distinct"], "schedules_run": stats["schedules"], "deadlock_ended_schedules": stats["deadlock_ends"],
+           "impl_model_states": impl["distinct"], "proofs": stats.get("proof_FutexProof"), "exploration": {k_: v_ for k_, v_ in stats.items() if "seam" in k_ or "skipped" in k_},
+           "schedules_run": stats["schedules"], "deadlock_ended_schedules": stats["deadlock_ends"],
            "emission_ops_compared": st["ops_compared"], "exhaustive": False}
     return v.finish("model_checking", cov,
                     ["schedules are exhaustive only up to the preemption bound (2 for <=3 threads, 1 above, plus random deeper ones in thorough)",
